@@ -188,6 +188,7 @@ structure St where
   A : EMat
   R : RMat
   flag : Flag
+  deriving DecidableEq
 
 /-- Record an abnormal event; the first one wins. -/
 def St.raise (s : St) (f : Flag) : St := if s.flag = .ok then { s with flag := f } else s
